@@ -90,6 +90,9 @@ func (p Track2Unpacker) Unpack(packedFieldValue []byte, spec *Spec) ([]byte, int
 		return nil, 0, fmt.Errorf("failed to decode length: %w", err)
 	}
 
+	// the length of the value as announced by the prefix
+	announcedLength := valueLength
+
 	// if valueLength is odd we need to make it even to adjust for
 	// the padding in our Packer
 	// mirror Track2Packer: the value was extended to an even length only if
@@ -107,6 +110,12 @@ func (p Track2Unpacker) Unpack(packedFieldValue []byte, spec *Spec) ([]byte, int
 	// unpad the value if needed
 	if spec.Pad != nil {
 		value = spec.Pad.Unpad(value)
+	}
+
+	// the character that made the length even must have been the pad
+	// character: otherwise the value is longer than the prefix announced
+	if len(value) > announcedLength {
+		return nil, 0, fmt.Errorf("value length: %d exceeds the announced length: %d", len(value), announcedLength)
 	}
 
 	return value, read + prefBytes, nil
